@@ -116,6 +116,9 @@ class WellShifter:
         shifted = []
         for well in wells.flatten():
             r, c = self.indices_B[well]
+            if r < self.dr or c < self.dc:
+                # negative indices would wrap around to wells that were never shifted here
+                raise IndexError(f"Well {well} is outside of the area that the wells were shifted to.")
             shifted.append(self.wells_A[r - self.dr, c - self.dc])
         return numpy.array(shifted).reshape(wells_shape)
 
